@@ -136,6 +136,21 @@ func jsontraceMain(args []string) int {
 		ndocs++
 		shard := d % *shards
 		raw := []byte(doc)
+		// FIRST detection of this document: whole, in ONE caller-owned buffer that held the previous document
+		// a moment ago and will be overwritten by the next one (nothing may keep pointing into it)
+		sharedUsed, sharedCls := false, ""
+		if len(raw) <= len(shared) {
+			for i := range shared[:len(raw)+8] {
+				shared[i] = 0
+			}
+			copy(shared, raw)
+			mimetype.SetLimit(0)
+			pc.on = false
+			var exs bool
+			sharedCls, exs = nodes.classOf(mimetype.Detect(shared[:len(raw)]))
+			sharedUsed = !exs
+			detections++
+		}
 		// cut points: limits from 1 .. len+1 and 0 (whole)
 		limits := []int64{0, int64(len(raw) + 1)}
 		if len(raw) <= *maxCuts {
@@ -168,32 +183,20 @@ func jsontraceMain(args []string) int {
 				rep.violate(mkViolation("C04", "caller-buffer-modified", raw, lim, "Detect modified its input"))
 			}
 		}
-		// the same document, whole, in ONE caller-owned buffer that held the previous document a moment ago
-		// (and is overwritten by the next one): the class must be the one obtained on the private copy
-		{
+		// the class seen in the reused buffer (taken FIRST, see above) against the class on a private copy
+		if sharedUsed {
 			mimetype.SetLimit(0)
 			pc.on = false
 			c1, ex1 := nodes.classOf(mimetype.Detect(exact(raw)))
-			if len(raw) <= len(shared) && !ex1 {
-				for i := range shared[:len(raw)] {
-					shared[i] = 0
+			detections++
+			if !ex1 && c1 != sharedCls {
+				prop := "C10"
+				if sharedCls == "" {
+					prop = "C08"
+				} else if c1 == "" {
+					prop = "C09"
 				}
-				copy(shared, raw)
-				c2, _ := nodes.classOf(mimetype.Detect(shared[:len(raw)]))
-				detections += 2
-				if c1 != c2 {
-					prop := "C10"
-					if c2 == "" {
-						prop = "C08"
-					} else if c1 == "" {
-						prop = "C09"
-					}
-					rep.violate(mkViolation(prop, "class-differs-in-a-reused-buffer", raw, 0, fmt.Sprintf("class %q on a private copy, %q in a buffer that held another document before", c1, c2)))
-				}
-				// ... and the private copy again, AFTER the shared buffer was used and will be overwritten
-				if c3, _ := nodes.classOf(mimetype.Detect(exact(raw))); c3 != c1 {
-					rep.violate(mkViolation("C10", "class-depends-on-history", raw, 0, fmt.Sprintf("class %q, then %q after a detection in a reused buffer", c1, c3)))
-				}
+				rep.violate(mkViolation(prop, "class-differs-in-a-reused-buffer", raw, 0, fmt.Sprintf("class %q on a private copy, %q in a buffer that held another document before", c1, sharedCls)))
 			}
 		}
 		if d < 6 {
